@@ -168,19 +168,19 @@ func (r *Router) handleHTTPRequest(ctx *Context) {
 		// route middleware, the main handler is appended to last below
 		handlers = route.handlers
 	} else if len(allowed) > 0 { // method not allowed
-		if len(r.noAllowed) == 0 {
-			r.noAllowed = HandlersChain{internal405Handler}
-		}
-
 		// add allowed methods to context
 		ctx.Set(CTXAllowedMethods, allowed)
-		handlers = r.noAllowed
-	} else { // not found route
-		if len(r.noRoute) == 0 {
-			r.noRoute = HandlersChain{internal404Handler}
-		}
 
+		// use the default handler if not set. NOTICE: don't write the router here, it is shared by all requests
+		handlers = r.noAllowed
+		if len(handlers) == 0 {
+			handlers = HandlersChain{internal405Handler}
+		}
+	} else { // not found route
 		handlers = r.noRoute
+		if len(handlers) == 0 {
+			handlers = HandlersChain{internal404Handler}
+		}
 	}
 
 	// build the chain in a new slice: r.handlers and route.handlers are shared by all in-flight
